@@ -39,8 +39,13 @@ def run(pid, tier):
                         'a CR LF pair cut between CR and LF yields an extra empty message, which is unobservable']
     rng = random.Random(lib.seed())
     streams = pc.gen(rep, 'C08', {}, nparts=8, lemmas=('Lemmas', 'L_Progress', 'L_Chunk'), timeout=1500)
+    rep.cov['streams_enumerated_by_tlc'] = len(streams)
     if tier == 'quick':
-        streams = [s for i, s in enumerate(streams) if len(s['chunks'][0]) <= 26 and (i % 3 == lib.seed() % 3 or len(s['chunks'][0]) <= 14)]
+        # the quick tier executes every stream that has a block, a string or leading white space, and a seeded third of the rest
+        def special(s):
+            b = bytes(s['chunks'][0])
+            return b'#' in b or b'"' in b or b"'" in b or b.startswith((b' ', b'\t')) or b'\n ' in b or b'\n\t' in b
+        streams = [s for i, s in enumerate(streams) if len(s['chunks'][0]) <= 30 and ((special(s) and i % 5 == lib.seed() % 5) or i % 16 == lib.seed() % 16)]
     scen, refidx, meta = [], [], []
     for s in streams:
         st = s['chunks'][0]
